@@ -268,7 +268,15 @@ func (h *Session) ICMP6SendRouterAdvertisement(prefixes []PrefixInformation, rdn
 		return err
 	}
 
-	return h.icmp6SendPacket(Addr{MAC: h.NICInfo.HostAddr4.MAC, IP: h.NICInfo.HostLLA.Addr()}, dstAddr, mb)
+	return h.icmp6SendPacket(Addr{MAC: h.NICInfo.HostAddr4.MAC, IP: h.NICInfo.HostLLA.Addr()}, dstAddr, icmp6Message(ra.Type(), mb))
+}
+
+// icmp6Message prepends the ICMPv6 header (type, code 0 and a zero checksum, which is
+// filled in when the packet is sent) to a marshalled NDP message body.
+func icmp6Message(t ipv6.ICMPType, body []byte) []byte {
+	b := make([]byte, 4, 4+len(body))
+	b[0] = byte(t)
+	return append(b, body...)
 }
 
 func (h *Session) ICMP6SendRouterSolicitation() error {
@@ -285,7 +293,7 @@ func (h *Session) ICMP6SendRouterSolicitation() error {
 		return err
 	}
 
-	return h.icmp6SendPacket(Addr{MAC: h.NICInfo.HostAddr4.MAC, IP: h.NICInfo.HostLLA.Addr()}, IP6AllRoutersAddr, mb)
+	return h.icmp6SendPacket(Addr{MAC: h.NICInfo.HostAddr4.MAC, IP: h.NICInfo.HostLLA.Addr()}, IP6AllRoutersAddr, icmp6Message(m.Type(), mb))
 }
 
 func (h *Session) ICMP6SendNeighborAdvertisement(srcAddr Addr, dstAddr Addr, targetAddr Addr) error {
